@@ -3,6 +3,7 @@
 package harness
 
 import (
+	"bytes"
 	"encoding/json"
 	"fmt"
 	"net/netip"
@@ -20,6 +21,7 @@ import (
 	"time"
 
 	"github.com/irai/packet"
+	dhcp4 "github.com/irai/packet/handlers/dhcp4_spoofer"
 	"pgregory.net/rapid"
 	"verifharness/drv"
 	"verifharness/gen"
@@ -42,6 +44,60 @@ type c09Frame struct {
 	B     drv.Hex `json:"b"`
 	Times int     `json:"n"`
 	P     int     `json:"p"`
+	// a step of a real DHCP client dialogue (built when it is its turn, from what the server holds for the
+	// client at that moment): the lease table then has entries that are offered, acknowledged (lease file
+	// rewritten), renewed, declined, released and freed by the ticker while the actors run
+	DHCP *c09DHCP `json:"dhcp,omitempty"`
+}
+
+type c09DHCP struct {
+	C    int    `json:"c"`    // station (index into the world's clients)
+	Step string `json:"step"` // discover | request | renew | decline | release
+}
+
+// c09DHCPFrame builds the client's next message; nil if the dialogue has nothing to say at this point.
+func c09DHCPFrame(w gen.World, e *c08Env, d c09DHCP) []byte {
+	mac := w.Clients[d.C%len(w.Clients)]
+	var lease *dhcp4.VerifLease
+	for _, l := range e.dhcp.VerifLeases() {
+		if bytes.Equal(l.MAC, mac[:]) {
+			l := l
+			lease = &l
+		}
+	}
+	m := ref.DHCPMsg{Op: 1, HType: 1, HLen: 6, CHAddr: mac, XID: [4]byte{0xc9, byte(d.C), 0, 1}}
+	src, dst := [4]byte{}, [4]byte{255, 255, 255, 255}
+	dstMAC := ref.MAC{0xff, 0xff, 0xff, 0xff, 0xff, 0xff}
+	our := w.HostIP.AsSlice()
+	switch d.Step {
+	case "discover":
+		m.Options = append(m.Options, ref.DHCPOpt{Code: 53, Data: []byte{1}})
+	case "request": // selecting: the address the server offered
+		if lease == nil || !lease.Offer.IsValid() {
+			return nil
+		}
+		m.Options = append(m.Options, ref.DHCPOpt{Code: 53, Data: []byte{3}}, ref.DHCPOpt{Code: 54, Data: our}, ref.DHCPOpt{Code: 50, Data: lease.Offer.AsSlice()})
+	case "renew", "decline", "release":
+		if lease == nil || !lease.IP.IsValid() || !lease.IP.Is4() {
+			return nil
+		}
+		switch d.Step {
+		case "renew":
+			m.Options = append(m.Options, ref.DHCPOpt{Code: 53, Data: []byte{3}})
+			m.CIAddr, src = lease.IP.As4(), lease.IP.As4()
+			dst, dstMAC = w.HostIP.As4(), w.HostMAC
+		case "decline":
+			m.Options = append(m.Options, ref.DHCPOpt{Code: 53, Data: []byte{4}}, ref.DHCPOpt{Code: 54, Data: our}, ref.DHCPOpt{Code: 50, Data: lease.IP.AsSlice()})
+		case "release":
+			m.Options = append(m.Options, ref.DHCPOpt{Code: 53, Data: []byte{7}}, ref.DHCPOpt{Code: 54, Data: our})
+			m.CIAddr, src = lease.IP.As4(), lease.IP.As4()
+			dst, dstMAC = w.HostIP.As4(), w.HostMAC
+		}
+	default:
+		return nil
+	}
+	m.Options = append(m.Options, ref.DHCPOpt{Code: 12, Data: []byte(fmt.Sprintf("station-%d", d.C))})
+	return ref.Eth(dstMAC, mac, 0x0800, ref.IP4(ref.IP4Hdr{TotalLen: -1, TTL: 64, Proto: 17, Checksum: -1, Src: src, Dst: dst}, ref.UDP(68, 67, -1, 0, m.Encode(true))))
 }
 
 type c09Call struct {
@@ -73,6 +129,7 @@ type c09Result struct {
 	FramesDone  int      `json:"frames_done"`
 	CallsDone   int      `json:"calls_done"`
 	ClosedEarly int      `json:"closed_early"`
+	DHCPSteps   int      `json:"dhcp_steps"` // messages of real DHCP dialogues delivered
 }
 
 var c09CallKinds = []string{"findip", "findip", "gethosts", "gethosts", "ipaddrs", "findbymac", "findmac", "printtable", "capture", "release", "iscaptured", "offer-get", "offer-set",
@@ -186,7 +243,7 @@ func (e *c08Env) c09Call(w gen.World, c c09Call, now time.Time) {
 	case "dhcp-stop":
 		e.dhcp.StopHunt(packet.Addr{MAC: mac, IP: ip4})
 	case "dhcp-tick":
-		e.dhcp.MinuteTicker(now.Add(time.Duration(c.I) * 20 * time.Minute))
+		e.dhcp.MinuteTicker(now.Add(time.Duration(c.I) * 45 * time.Minute)) // leases last 4 h, offers seconds
 	case "arp-printtable":
 		e.arp.PrintTable()
 	case "dhcp-printtable":
@@ -303,9 +360,15 @@ func c09ChildRun(c c09Case) (res c09Result) {
 		return true
 	}
 	steps := []time.Duration{30 * time.Second, 3 * time.Minute, 40 * time.Minute}
+	leaseDir, _ := os.MkdirTemp("", "c09-")
+	defer os.RemoveAll(leaseDir)
 	var envs []*c08Env
 	for round := 0; round < c.Rounds && res.Deadlock == "" && len(res.Panics) == 0; round++ {
-		e := newC08Env()
+		// the DHCP handler persists its leases (rewritten after every ACK) as the default configuration does
+		e := newC08EnvFile(filepath.Join(leaseDir, fmt.Sprintf("leases-%d.yaml", round)))
+		if round%2 == 1 { // as the only server of the LAN every station is served; as secondary server the captured ones
+			e.dhcp.SetMode(dhcp4.ModePrimaryServer)
+		}
 		envs = append(envs, e)
 		now := time.Now()
 		start := make(chan struct{})
@@ -347,7 +410,19 @@ func c09ChildRun(c c09Case) (res c09Result) {
 					closed = true
 				}
 				n := copy(buf, f.B)
-				for k := 0; k < f.Times; k++ {
+				if f.DHCP != nil {
+					var b []byte
+					if !guard(func() { b = c09DHCPFrame(w, e, *f.DHCP) }) {
+						b = nil
+					}
+					n = copy(buf, b)
+					if b != nil {
+						mu.Lock()
+						res.DHCPSteps++
+						mu.Unlock()
+					}
+				}
+				for k := 0; k < f.Times && n > 0; k++ {
 					if !guard(func() { e.process(buf[:n]) }) {
 						state.Lock()
 						loopEnded = true
@@ -737,7 +812,14 @@ func genC09(t *rapid.T) c09Case {
 	hcfg := histCfg{}
 	for i := rapid.IntRange(10, 60).Draw(t, "nframes"); i > 0; i-- {
 		var f c09Frame
-		switch rapid.IntRange(0, 5).Draw(t, "frameSource") {
+		switch rapid.IntRange(0, 6).Draw(t, "frameSource") {
+		case 6: // a step of a DHCP dialogue; discover + request pairs make leases that later steps and the ticker work on
+			d := c09DHCP{C: rapid.IntRange(0, 3).Draw(t, "dhcpClient"), Step: rapid.SampledFrom([]string{"discover", "discover", "request", "request", "renew", "renew", "decline", "release"}).Draw(t, "dhcpStep")}
+			if d.Step == "discover" && rapid.IntRange(0, 2).Draw(t, "thenRequest") != 0 {
+				c.Frames = append(c.Frames, c09Frame{Times: 1, DHCP: &c09DHCP{C: d.C, Step: "discover"}})
+				d.Step = "request"
+			}
+			f = c09Frame{Times: 1, DHCP: &d}
 		case 0, 1: // host-tracking churn: addresses moving between MACs
 			op := hOp{K: rapid.SampledFrom([]string{"f4", "f4", "f6", "arp", "dhcp"}).Draw(t, "hk"), Src: rapid.IntRange(mC1, mC5).Draw(t, "src"), IP: rapid.IntRange(0, 2).Draw(t, "ip"), New: rapid.IntRange(0, 2).Draw(t, "new")}
 			op.SHA = op.Src
